@@ -116,7 +116,7 @@ def build_query(n: int, pat: dict) -> tuple[str, list[str], list[tuple]]:
 def _alphabet(n: int) -> list[list]:
     ks = sorted({1, 2, 3, max(n, 1), n + 1})
     ops: list[list] = [["one"], ["all"], ["pandas"], ["rowcount"]]
-    ops += [["many", k] for k in ks]
+    ops += [["many", k] for k in ks] + [["many", 0]]  # fetchmany(0): no rows, the position stays
     ops += [["as_many", a] for a in (1, 2, n + 1)]
     ops += [["set_as", 2], ["set_as", 3], ["many_default"], ["many_default"]]
     return ops
@@ -207,7 +207,7 @@ def _gen_random(tier: str, r: random.Random, max_n: int, max_len: int):
             if y < 0.25:
                 script.append(["one"])
             elif y < 0.55:
-                script.append(["many", r.choice([1, 2, 3, 7, 100, 1000, 1024, n or 1, n + 1, r.randint(1, max(1, n))])])
+                script.append(["many", r.choice([0, 1, 2, 3, 7, 100, 1000, 1024, n or 1, n + 1, r.randint(1, max(1, n))])])
             elif y < 0.62:
                 script.append(["as_many", r.choice([1, 2, 5, 64, 1000, n + 1])])
             elif y < 0.66:
